@@ -182,6 +182,11 @@ def c15_configs(thorough):
             out.append(("rand", dict(driver=d, allow_late=True, any_start_order=True,
                                      callers=[("send", "dtc", {}), ("seq", ["dtq", "cfg"], {}), ("send", "q", {})]),
                         40 if not thorough else 300))
+        if d in ("luba", "sci"):
+            # the gateway stops part-way through a report (a stray start byte while idle, a truncated confirmation):
+            # every caller still completes within the documented time-outs and the lock is free afterwards
+            out.append(("sweep", dict(driver=d, budget={"trunc": 1},
+                                      callers=[("send", "q", {}), ("send", "dtq", {}), ("seq", ["off", "q"], {})]), 0))
         if d in ("tridonic", "hasseb"):
             # the gateway is lost and comes back while a unit is on its way (strengthening after seeded round 2): a
             # send with exceptions off is RETRIED, and the retried unit must again be whole - EnableDeviceType in front
